@@ -476,6 +476,11 @@ pub fn run(ctx: &Ctx) -> i32 {
     let base: Vec<(Box<dyn Family>, u64)> = vec![
         (Box::new(Decorated::new("F3 skeletons", skeletons(), if q { 1 } else { 2 }, false, &no_fav)), if q { 3 } else { 7 }),
         (Box::new(Grid::f1().with_root(RootMenu::AnyVersion)), if q { 64 } else { 4 }),
+        // several exclusions / Unknown answers at once (they share one interned reason string)
+        (
+            Box::new(Decorated::new("F3 skeletons x exclusion / unknown decorations", skeletons(), 2, false, &|d| matches!(d, Deco::Exclude(..) | Deco::Unknown(_)))),
+            if q { 2 } else { 1 },
+        ),
     ];
     let mut states = 0;
     let mut transitions = 0;
